@@ -520,7 +520,7 @@ func (w *World) StartCall(name string, node uint16, f func() ([]byte, error)) *C
 				w.Panics = append(w.Panics, PanicRec{Where: name + "@" + strconv.Itoa(int(node)), Value: fmt.Sprint(r), Stack: string(debug.Stack())})
 				c.Done = true
 				c.EndAt = w.Now()
-				c.EndStep = w.Step
+				c.EndStep = int(w.StepA())
 				w.mu.Unlock()
 			}
 		}()
@@ -528,7 +528,7 @@ func (w *World) StartCall(name string, node uint16, f func() ([]byte, error)) *C
 		w.mu.Lock()
 		c.Out, c.Err, c.Done = out, err, true
 		c.EndAt = w.Now()
-		c.EndStep = w.Step
+		c.EndStep = int(w.StepA())
 		w.mu.Unlock()
 	}()
 	return c
